@@ -78,6 +78,10 @@ REGIONS = {
     'core_mix': dict(mix=True),                                    # one run = max_time, then max_customers, then max_time again
     'block_mix': dict(block=1.0, mix=True),
     'dyn_reroute': dict(dyn=1.0, prio=1.0, preempt=1.0, reroute=True, reroute_all=True, multiclass=True, noblock=True),   # class change while waiting that pre-empts and reroutes
+    # one multi-server node fanning out to two single-server nodes without waiting room: several customers blocked at once, towards
+    # different destinations that free up in a different order than they filled
+    'fanout_block': dict(block=1.0, fanout=True),
+    'dyn_preempt': dict(dyn=1.0, prio=1.0, preempt=1.0, multiclass=True, noblock=True),   # class change while waiting that pre-empts (resume / restart / resample)
     'spf': dict(spf=1.0),                                          # server priority functions (which free server is taken)
     'spf_sched': dict(spf=1.0, sched=1.0, noblock=True),
     'spf_block': dict(spf=1.0, block=0.8),
@@ -269,6 +273,20 @@ def gen(region, seed, size='quick'):
         T = rng.choice([40, 80, 120, 200] if not big else [120, 200, 400, 800])
         cfg['run'] = ['time', T]
         cfg['max_frames'] = 600 if not big else 3000
+    if f.get('fanout'):
+        n = cfg['n'] = 3
+        k = cfg['k']
+        cfg['servers'] = [rng.choice([3, 3, 4]), 1, 1]
+        cfg['qcap'] = ['inf', 0, rng.choice([0, 0, 1])]
+        cfg['syscap'] = 'inf'
+        cfg['arr'] = [[_vals(rng, 1, 3, grid=[1, 2, 3]), None, None] for _ in range(k)]
+        cfg['svc'] = [[_vals(rng, 1, 3, grid=[1, 2, 3]), _vals(rng, 1, 3, grid=[8, 12, 16, 20]), _vals(rng, 1, 3, grid=[3, 4, 5, 6])] for _ in range(k)]
+        cfg['routing'] = [{'kind': 'tm', 'rows': [[0, 4, 4], [0, 0, 0], [0, 0, 0]]} for _ in range(k)]
+        for key in ('ccm', 'batch', 'baulk', 'ren', 'cct', 'ps', 'ps_thr', 'preempt', 'spf'):
+            if key in cfg:
+                cfg[key] = None
+        if cfg.get('disc') is not None:
+            cfg['disc'] = (cfg['disc'] + ['FIFO'] * 3)[:3]
     if f.get('tandem'):
         n = cfg['n'] = 2
         m = rng.randint(2, 4)
